@@ -27,15 +27,14 @@ ORACLE_INVS = ["IFT", "NeumannEqInverse", "AssembledIsClosedForm", "SubsystemUni
                "SubsetIndependence", "StructuralZeros", "Shapes", "CacheCoherent", "NoRaise"]
 SOLVERS = ["DEFAULT", "LGMRES", "GMRES", "GCROT"]
 OTHER_SOLVERS = ["BICG", "BICGSTAB", "TFQMR", "CGS"]
-EXC_OF = {"unknown_size": ("ValueError",), "empty_couplings": ("IndexError",),
-          "not_linearized": ("KeyError", "TypeError")}
 
 
 def tla_set(xs):
     return "{" + ", ".join(('"%s"' % x) if isinstance(x, str) else str(x) for x in xs) + "}"
 
 
-def cfg(topos, profiles, choices, seeds, rules, maxhist, reqmod, emit, invs, pre=("fresh", "newton"), adjmod=4):
+def cfg(topos, profiles, choices, seeds, rules, maxhist, reqmod, emit, invs, pre=("fresh", "newton", "newtonall"),
+        adjmod=4):
     s = ("CONSTANTS\n Topos = %s\n Profiles = %s\n Choices = %s\n Seeds = %s\n RuleSets = %s\n PreSets = %s\n MaxHist = %d\n"
          " ReqMod = %d\n ReqRes = {0}\n AdjMod = %d\n Emit = %s\nSPECIFICATION Spec\nCHECK_DEADLOCK FALSE\n"
          % (tla_set(topos), tla_set(profiles), tla_set(choices), tla_set(seeds), tla_set(rules), tla_set(pre), maxhist,
@@ -84,7 +83,8 @@ def parse_records(results):
             if v[0] == "INST":
                 _, key, rules, pre, S, size, J, nilp, nodes, merged, cfm = v
                 insts[key] = {"key": key, "S": S, "size": size, "J": J, "nilp": nilp,
-                              "weak": nodes != merged, "cf": cfm}
+                              "weak": nodes != merged, "several_groups": nodes == merged and len(nodes) > 1,
+                              "cf": cfm}
             elif v[0] == "CASE":
                 _, key, rules, pre, hist, err, mcs, tot, exact = v
                 cases[(key, rules, pre, hist)] = ("+".join(sorted(err)) or "none", mcs, tot, exact)
@@ -109,9 +109,14 @@ def mda_classes(inst):
     return out
 
 
-def pre_of(conf):
-    """State of the disciplines before the first request, as the specification names it."""
-    return "newton" if (conf["cls"] in NEWTON or conf.get("inner") == "MDANewtonRaphson") else "fresh"
+def pre_of(conf, inst):
+    """State of the disciplines before the first request, as the specification names it: a Newton
+    MDA has linearized the strongly coupled disciplines with respect to the couplings it resolves
+    (those of each group for the inner MDAs of an MDAChain, all of them for a Newton MDA over the whole
+    structure - the specification distinguishes the two only when there are several groups)."""
+    if conf["cls"] in NEWTON:
+        return "newtonall" if inst["several_groups"] else "newton"
+    return "newton" if conf.get("inner") == "MDANewtonRaphson" else "fresh"
 
 
 def sample_conf(rng, inst, api, k):
@@ -270,7 +275,7 @@ def run(ck: Check):
     misses = []
     for n, ((key, hist, conf), steps) in enumerate(zip(todo + sweep, outs)):
         inst = insts[key]
-        pre = pre_of(conf)
+        pre = pre_of(conf, inst)
         informational = conf["solver"] in OTHER_SOLVERS
         case = {"instance": {"key": key, "S": inst["S"], "size": inst["size"], "J": inst["J"]},
                 "history": hist, "config": conf, "pre": pre}
